@@ -1,8 +1,8 @@
 (* C01 - Schema validation verdicts agree with JSON Schema draft 4.
    Theorems only; proofs are [exact] of lemmas proved elsewhere, or vm_compute witnesses. *)
-From Coq Require Import List ZArith Bool.
+From Coq Require Import List ZArith Bool Lia.
 From Verif Require Import Base.Sx Base.GoVal Base.F64 Schema.Ast Schema.Build Schema.Pipeline Schema.Draft4
-  Schema.Classes Schema.PipelineFacts Schema.PipelineTerm Schema.AgreementData Schema.Agreement Schema.AgreementRef Schema.AgreementDec Schema.AgreementFlocq.
+  Schema.Classes Schema.PipelineFacts Schema.PipelineTerm Schema.AgreementData Schema.Agreement Schema.AgreementRef Schema.AgreementDec Schema.AgreementFlocq Schema.PipelineTermRec Schema.PipelineTermDec Schema.AgreementRec.
 Import ListNotations.
 Open Scope Z_scope.
 
@@ -180,3 +180,74 @@ Example C01_string_format_in_fragment :
   clean_b (fun _ => true) false true no_oracles 2 (set_types [k_string] (set_format 77 empty_schema)) = false /\
   clean_b (fun _ => true) false true no_oracles 2 (set_types [k_string; k_array] (set_format 77 empty_schema)) = true.
 Proof. vm_compute. repeat split. Qed.
+
+(* ---- recursive definitions ---- *)
+
+(* Let W be a set of schemas closed under "sub-schema of" and "target of the reference of" whose members that are not
+   references are of the clean class, with a rank, bounded by R, that strictly decreases along the edges that keep the value
+   ($ref -> target, allOf / anyOf / oneOf / not members, schema dependencies): every cycle of references passes through items,
+   properties or the additional keywords.  Then on every JSON value of the data class the verdict of the pipeline is the
+   draft-4 verdict, once both fuels exceed depth(value) * (R + 1) + rank(schema) - by lexicographic induction on (depth of
+   the value, rank of the schema).  Definitions such as a tree or a linked list are inside; so is the Swagger 2.0 schema's
+   shape of recursion.  The composition cycle of the C06 finding has no rank. *)
+Theorem C01_agreement_through_recursive_definitions_partial :
+  forall (fin : f64 -> Prop) (allow_null allow_arr : bool) OR N opt defs,
+  opt_array_must_have_items opt = false -> opt_obj_array_type_check opt = false ->
+  (forall a b, fin a -> fin b -> n_lt N a b = negb (n_le N b a)) ->
+  (forall a b, fin a -> fin b -> n_eq N a b = n_eq N b a) ->
+  forall (W : schema -> Prop) (rank : schema -> nat) (R : nat), guarded defs W rank R ->
+  (forall s, W s -> s_ref s = None -> local_clean fin allow_null allow_arr OR s) ->
+  forall f1 f2 s d, W s -> jd fin allow_null allow_arr d ->
+  (goval_depth d * S R + rank s < f1)%nat -> (goval_depth d * S R + rank s < f2)%nat ->
+  forall p q, exists r, sv_validate OR N opt defs f1 s p q d = Ok r /\ d4 OR N defs f2 s d = Some (r_valid r).
+Proof. exact guarded_fragment_agrees. Qed.
+Print Assumptions C01_agreement_through_recursive_definitions_partial.
+
+(* the hypothesis is decidable ([cleang_b]: the rank of Schema/PipelineTermDec.v exists and every schema below the root and
+   the definitions passes the local test); the procedure is evaluated on every case of the run *)
+Theorem C01_recursive_fragment_decision_is_sound :
+  forall fin_b allow_null allow_arr OR N opt defs,
+  opt_array_must_have_items opt = false -> opt_obj_array_type_check opt = false ->
+  (forall a b, finP fin_b a -> finP fin_b b -> n_lt N a b = negb (n_le N b a)) ->
+  (forall a b, finP fin_b a -> finP fin_b b -> n_eq N a b = n_eq N b a) ->
+  forall K R n root f1 f2 d,
+  cleang_b fin_b allow_null allow_arr OR defs K R n root = true -> jd (finP fin_b) allow_null allow_arr d ->
+  (goval_depth d * S R + urank defs K root < f1)%nat -> (goval_depth d * S R + urank defs K root < f2)%nat ->
+  forall p q, exists r, sv_validate OR N opt defs f1 root p q d = Ok r /\ d4 OR N defs f2 root d = Some (r_valid r).
+Proof. exact decided_fragment_agrees. Qed.
+Print Assumptions C01_recursive_fragment_decision_is_sound.
+
+(* non-vacuity: a tree, definitions.tree = {"type":"object","properties":{"value":{"type":"number","maximum":7},
+   "kids":{"type":"array","items":{"$ref":"#/definitions/tree"}}},"additionalProperties":false}, root {"$ref": tree} *)
+Definition c01_tree : schema :=
+  set_types [k_object]
+    (set_props [(50, set_types [k_number] (set_maximum (Some 7) empty_schema));
+                (51, set_types [k_array] (set_items_one (Some (set_ref (Some 60) empty_schema)) empty_schema))]
+       (set_add_props (Some (false, None)) empty_schema)).
+Definition c01_tree_defs : env := [(60, c01_tree)].
+Definition c01_tree_root : schema := set_ref (Some 60) empty_schema.
+Definition c01_tree_data : goval :=
+  VObj 1 [(50, VFlt false 5); (51, VArr 2 [VObj 3 [(50, VFlt false 9)]; VObj 4 [(51, VArr 5 [])]])].
+Example C01_recursive_fragment_is_inhabited :
+  cleang_b (fun _ => true) false true no_oracles c01_tree_defs 8 1 6 c01_tree_root = true /\
+  jd_b (fun _ => true) false true 6 c01_tree_data = true /\
+  (goval_depth c01_tree_data * 2 + urank c01_tree_defs 8 c01_tree_root < 20)%nat /\
+  (exists r, sv_validate no_oracles z_ops opt0 c01_tree_defs 20 c01_tree_root [SRoot 0] [SRoot 0] c01_tree_data = Ok r /\ r_valid r = false) /\
+  d4 no_oracles z_ops c01_tree_defs 20 c01_tree_root c01_tree_data = Some false.
+Proof.
+  split; [vm_compute; reflexivity|]. split; [vm_compute; reflexivity|]. split; [vm_compute; lia|].
+  split; [eexists; split; [vm_compute; reflexivity | reflexivity] | vm_compute; reflexivity].
+Qed.
+
+(* the instance the correspondence run executes *)
+Theorem C01_recursive_agreement_for_the_binary64_model : forall allow_null allow_arr OR opt defs K R n root f1 f2 fuel d,
+  opt_array_must_have_items opt = false -> opt_obj_array_type_check opt = false ->
+  cleang_b f_finite allow_null allow_arr OR defs K R n root = true -> jd_b f_finite allow_null allow_arr fuel d = true ->
+  (goval_depth d * S R + urank defs K root < f1)%nat -> (goval_depth d * S R + urank defs K root < f2)%nat ->
+  forall p q, exists r, sv_validate OR flocq_ops opt defs f1 root p q d = Ok r /\ d4 OR flocq_ops defs f2 root d = Some (r_valid r).
+Proof.
+  intros an aa OR opt defs K R n root f1 f2 fuel d H1 H2 Hc Hd Hf1 Hf2 p q.
+  apply (decided_fragment_agrees f_finite an aa OR flocq_ops opt defs H1 H2 flocq_order_total flocq_eq_sym K R n root f1 f2 d Hc
+           (jd_b_sound f_finite an aa fuel d Hd) Hf1 Hf2).
+Qed.
+Print Assumptions C01_recursive_agreement_for_the_binary64_model.
